@@ -312,7 +312,10 @@ type StateKey uint64
 //
 // This uses FNV-1a hash for speed and decent distribution.
 func ComputeStateKey(nfaStates []nfa.StateID) StateKey {
-	return ComputeStateKeyWithWord(nfaStates, false)
+	sorted := make([]nfa.StateID, len(nfaStates))
+	copy(sorted, nfaStates)
+	sortStateIDs(sorted)
+	return ComputeStateKeyWithWord(sorted, false)
 }
 
 // ComputeStateKeyWithWord computes a hash-based key including word context.
@@ -339,13 +342,13 @@ func ComputeStateKeyWithWordAndMatch(nfaStates []nfa.StateID, isFromWord bool, i
 		return key
 	}
 
-	// Sort NFA states for canonical ordering
-	// This ensures {1,2,3} and {3,2,1} produce the same key
-	sorted := make([]nfa.StateID, len(nfaStates))
-	copy(sorted, nfaStates)
-	sortStateIDs(sorted)
+	// The ORDER of the NFA states is part of the DFA state: it is the thread
+	// priority that break-at-match (leftmost-first) relies on, so {1,2,3} and
+	// {3,2,1} must not share a cache entry. (ComputeStateKey, the set-only
+	// variant, sorts before it gets here.)
+	sorted := nfaStates
 
-	// Hash the sorted states using FNV-1a
+	// Hash the states in their given order using FNV-1a
 	h := fnv.New64a()
 
 	// Include isFromWord and isMatch in the hash FIRST to distinguish states
